@@ -147,6 +147,10 @@ type Hash struct {
 	buf   []byte
 }
 
+// HashInjective idealises hashes and HMAC as collision-free (distinct inputs give distinct
+// full-length outputs) for the harnesses that need "different input => different key".
+var HashInjective bool
+
 func (h *Hash) Write(p []byte) (int, error) {
 	h.buf = append(h.buf, p...)
 	return len(p), nil
@@ -156,8 +160,14 @@ func (h *Hash) digest() []byte {
 	msg := append([]byte{}, h.buf...)
 	var out []byte
 	if h.key != nil {
-		out = verifrt.UF("HMAC_"+h.name, h.size, h.key, msg)
+		if HashInjective {
+			out = verifrt.UFInj("HMAC_"+h.name, h.size, h.key, msg)
+		} else {
+			out = verifrt.UF("HMAC_"+h.name, h.size, h.key, msg)
+		}
 		logMAC(h.key, msg, out)
+	} else if HashInjective {
+		out = verifrt.UFInj("HASH_"+h.name, h.size, msg)
 	} else {
 		out = verifrt.UF("HASH_"+h.name, h.size, msg)
 	}
